@@ -693,3 +693,153 @@ def replay(consts, states, probe_after=True):
         return None, bad
     finally:
         h.close()
+
+
+# ---------------------------------------------------------------------- recording (code -> spec)
+PHASES = {(False, False, False, False, False): 0, (True, True, True, False, False): 1,
+          (True, True, True, True, False): 2, (True, True, True, True, True): 3}
+
+
+def _bag_arr(b):
+    out = []
+    for t, c in sorted(b.items(), key=lambda kv: repr(kv[0])):
+        d = task_dict(t)
+        d["c"] = c
+        out.append(d)
+    return out
+
+
+def to_post(p, consts):
+    """Projection -> the JSON shape Trace_Hosts.tla's Post() expects."""
+    hosts = sorted(consts["Hosts"])
+    sess = sorted(consts["Sessions"])
+    allh = [CTL] + hosts
+    return {
+        "known": [p["known"][h] for h in hosts], "removed": [p["removed"][h] for h in hosts],
+        "up": [p["up"][h] for h in hosts], "handling": [p["handling"][h] for h in hosts],
+        "recon": [p["recon"][h] for h in hosts],
+        "pools": [[p["pools"][s][h] for h in allh] for s in sess],
+        "grp": [{"h": k[0], "kind": k[1], "n": k[2], "left": sorted(g["left"]), "ok": g["ok"]}
+                for k, g in sorted(p["grp"].items())],
+        "exec": _bag_arr(p["exec"]), "sched": _bag_arr(p["sched"]),
+        "lbpLive": sorted(p["lbpLive"]), "phase": PHASES.get(tuple(p["flags"]), -1),
+        "ctl": p["ctl"], "ctlPend": p["ctlPend"], "req": [p["req"][s] for s in sess],
+        "emL": [list(x) for x in p["emL"]], "emP": [list(x) for x in p["emP"]],
+        "nopen": p["nopen"] if isinstance(p["nopen"], int) else -1,
+    }
+
+
+def event_of(act, post):
+    ev = {"e": act["name"], "post": post}
+    if act["name"] in ("Exec", "Fire"):
+        ev["t"] = dict(act["t"])
+    for k in ("s", "h", "x"):
+        if act.get(k) not in (None, 0, ""):
+            ev[k] = act[k]
+    return ev
+
+
+def A(name, t=None, s=0, h=0, x=""):
+    return {"name": name, "t": t if t is not None else task_dict(T("none")), "s": s, "h": h, "x": x}
+
+
+def enabled_ops(h, p, consts, state):
+    """Operations the specification's Next could take from where the real objects are (state: budget, mode, peers)."""
+    env = consts["Env"]
+    ops = []
+    phase = PHASES.get(tuple(p["flags"]), -1)
+    started = h.shut_thread is not None
+    for d in sorted(set(p["exec"]), key=repr):
+        ops.append(("task", A("Exec", task_dict(d))))
+    if not p["flags"][1] and not started:
+        for d in sorted(set(p["sched"]), key=repr):
+            ops.append(("task", A("Fire", task_dict(d))))
+    if phase == 0 and not started and state["budget"] < consts["MaxEvents"]:
+        for hh in h.hosts:
+            if "fail" in env:
+                for s in h.sess_ids:
+                    if p["pools"][s][hh] == "open":
+                        ops.append(("env", A("ConnFailure", s=s, h=hh)))
+            if "status" in env and p["ctl"] == "open" and p["known"][hh]:
+                ops.append(("env", A("StatusEvent", h=hh, x="UP")))
+                ops.append(("env", A("StatusEvent", h=hh, x="DOWN")))
+            if "topo" in env and p["ctl"] == "open":
+                if hh not in state["peers"] and not p["known"][hh] and not p["removed"][hh]:
+                    ops.append(("env", A("TopologyEvent", h=hh, x="NEW_NODE")))
+                if hh in state["peers"] and p["known"][hh]:
+                    ops.append(("env", A("TopologyEvent", h=hh, x="REMOVED_NODE")))
+            for m in ("ok", "refuse", "auth"):
+                if m != state["mode"][hh] and (m == "ok" or (m == "refuse" and "mode" in env) or (m == "auth" and "auth" in env)):
+                    ops.append(("env", A("SetMode", h=hh, x=m)))
+        if "ctl" in env and p["ctl"] == "open" and not p["ctlPend"]:
+            ops.append(("env", A("CtlFail")))
+    if phase in (0, 1, 2) and (phase == 0) == (not started):
+        ops.append(("shut", A(("ShutdownA", "ShutdownS", "ShutdownE")[phase])))
+    if phase == 3 and not p["exec"]:
+        for s in h.sess_ids:
+            if p["req"][s] == "none":
+                ops.append(("req", A("Request", s=s)))
+    return ops
+
+
+def record(consts, rng, max_events=40, p_shut=0.06, p_env=0.35):
+    """Drive the real objects with random enabled operations; return the list of events (with post-states)."""
+    h = HostsHarness(consts)
+    state = {"budget": 0, "mode": {x: "ok" for x in h.hosts}, "peers": set(consts["Known0"])}
+    events = []
+    try:
+        p = h.project()
+        while len(events) < max_events:
+            ops = enabled_ops(h, p, consts, state)
+            if not ops:
+                break
+            groups = {}
+            for kind, a in ops:
+                groups.setdefault(kind, []).append(a)
+            r = rng.random()
+            if "shut" in groups and (r < p_shut or len(groups) == 1 or PHASES.get(tuple(p["flags"]), 0) > 0 and r < 0.4):
+                act = groups["shut"][0]
+            elif "env" in groups and ("task" not in groups or r < p_env):
+                act = rng.choice(groups["env"])
+            elif "task" in groups:
+                act = rng.choice(groups["task"])
+            elif "req" in groups:
+                act = rng.choice(groups["req"])
+            else:
+                act = rng.choice([a for _, a in ops])
+            try:
+                p = h.do(act)
+            except Exception as ex:          # the real objects left the envelope the harness can drive
+                events.append({"e": "Anomaly", "during": {k: v for k, v in act.items() if k != "t"} | {"t": act["t"]},
+                               "what": "%s: %s" % (type(ex).__name__, ex), "post": {}})
+                break
+            if act["name"] in ("ConnFailure", "StatusEvent", "TopologyEvent", "SetMode", "CtlFail"):
+                state["budget"] += 1
+            if act["name"] == "SetMode":
+                state["mode"][act["h"]] = act["x"]
+            if act["name"] == "TopologyEvent":
+                (state["peers"].add if act["x"] == "NEW_NODE" else state["peers"].discard)(act["h"])
+            events.append(event_of(act, to_post(p, consts)))
+        bad = h.after_return_probe() if h.returned() else {}
+        return events, bad, p
+    finally:
+        h.close()
+
+
+def run_script(consts, acts):
+    """Perform a fixed list of actions on fresh real objects.  Returns (events, final projection, after-return
+    findings, error or None)."""
+    h = HostsHarness(consts)
+    events = []
+    p = h.project()
+    try:
+        for act in acts:
+            try:
+                p = h.do(act)
+            except Exception as ex:
+                return events, p, {}, "%s at %s: %s" % (type(ex).__name__, act["name"], ex)
+            events.append(event_of(act, to_post(p, consts)))
+        bad = h.after_return_probe() if h.returned() else {}
+        return events, p, bad, None
+    finally:
+        h.close()
